@@ -131,6 +131,61 @@ func dayExamined(fn *ssa.Function) bool {
 	return false
 }
 
+// dependsOnClockFields: the value is computed from Hour/Minute/Second accessor results.
+func dependsOnClockFields(v ssa.Value, depth int, seen map[ssa.Value]bool) string {
+	if v == nil || depth > 8 || seen[v] {
+		return ""
+	}
+	seen[v] = true
+	switch x := v.(type) {
+	case *ssa.Call:
+		if f := x.Call.StaticCallee(); f != nil {
+			switch calleeName(f) {
+			case "(time.Time).Hour", "(time.Time).Minute", "(time.Time).Second", "(time.Time).Clock":
+				return calleeName(f)
+			}
+		}
+		for _, a := range x.Call.Args {
+			if d := dependsOnClockFields(a, depth+1, seen); d != "" {
+				return d
+			}
+		}
+	case *ssa.BinOp:
+		if d := dependsOnClockFields(x.X, depth+1, seen); d != "" {
+			return d
+		}
+		return dependsOnClockFields(x.Y, depth+1, seen)
+	case *ssa.Convert:
+		return dependsOnClockFields(x.X, depth+1, seen)
+	case *ssa.ChangeType:
+		return dependsOnClockFields(x.X, depth+1, seen)
+	case *ssa.Extract:
+		return dependsOnClockFields(x.Tuple, depth+1, seen)
+	case *ssa.Phi:
+		for _, e := range x.Edges {
+			if d := dependsOnClockFields(e, depth+1, seen); d != "" {
+				return d
+			}
+		}
+	case *ssa.UnOp:
+		if al, ok := x.X.(*ssa.Alloc); ok {
+			for _, ref := range *al.Referrers() {
+				if st, ok := ref.(*ssa.Store); ok && st.Addr == al {
+					if d := dependsOnClockFields(st.Val, depth+1, seen); d != "" {
+						return d
+					}
+				}
+			}
+		}
+		return dependsOnClockFields(x.X, depth+1, seen)
+	case *ssa.FieldAddr:
+		if x.X.Type().String() != "" && (strings.HasSuffix(typeName(x.X.Type()), "types.HHmm")) {
+			return "an HH:mm value"
+		}
+	}
+	return ""
+}
+
 // dayEstablished: on every returning path of a local-midnight constructor the returned instant's civil day has been
 // compared equal to the requested day (the day parameter, or the day of the same civil date built in UTC).
 func dayEstablished(p *Program, fn *ssa.Function) string {
@@ -192,6 +247,7 @@ func RuleZone(r *Report, p *Program, c *Codec) {
 	r.Rule("Z1", "civil dates and times are built and parsed in the process-local zone; a UTC parse is tolerated only when its result is used solely through civil-field accessors", 10)
 	r.Rule("Z2", "encoders format the civil fields of the stored instant itself", 4)
 	r.Rule("Z3", "a date-only value (local midnight) is never produced without re-checking the civil day of the result: where a DST change removes 00:00 time.Date/ParseInLocation resolve to the previous day", 1)
+	r.Rule("Z5", "no civil time of day is produced by adding hours/minutes/seconds as a duration to an instant (wrong by the DST delta on transition days): civil date-times are parsed or built as a whole in the local zone", 1)
 	r.Rule("Z4", "the controller system date and time are recombined with the layouts they were formatted with, in the process-local zone, identically for GetStatus and the event listener", 1)
 	for _, fn := range p.AllFuncs {
 		if fn.Pkg == nil && fn.Parent() == nil {
@@ -261,6 +317,12 @@ func RuleZone(r *Report, p *Program, c *Codec) {
 						r.OK("Z1", site, pos, "UTC parse used only for its civil fields", true)
 					default:
 						r.Bad("Z1", site, pos, "parses a date/time outside time.Local and lets the instant escape")
+					}
+				case "(time.Time).Add":
+					if d := dependsOnClockFields(args[1], 0, map[ssa.Value]bool{}); d != "" {
+						r.Bad("Z5", site, pos, "adds a time of day taken from "+d+" as a duration to an instant: on a day with a daylight-saving change local midnight + hh:mm:ss is not the civil time hh:mm:ss (one hour off after the change)")
+					} else {
+						r.OK("Z5", site, pos, "duration does not derive from civil clock fields", true)
 					}
 				case "(time.Time).UTC", "(time.Time).In", "(time.Time).Local":
 					if civilOnlyUse(call, 0) {
